@@ -316,6 +316,18 @@ def r_endtag(repo, tier):
                     E = c.args[2]
                 if E is None:
                     continue
+            elif isinstance(c.func, ast.Attribute) and c.func.attr == "write" and len(c.args) >= 2 and isinstance(_data_owner(c.args[1]), str):
+                # X.write(addr, <obj>.data.val[, endian]) : re-writing bytes that belong to an existing object
+                V = c.args[1]
+                E = c.args[2] if len(c.args) >= 3 else None
+                for k in c.keywords:
+                    if k.arg == "endian":
+                        E = k.value
+                if E is None:
+                    n_sites += 1
+                    out.inst("%s::%s" % (f.key, norm(c)[:80]), {"site": "%s:%d" % (f.file, c.lineno), "call": norm(c)[:90], "data_from": _data_owner(V), "tag": None, "ok": False})
+                    out.report(f.file, f.dqual, "%s without tag" % norm(c)[:70], c.lineno, "the bytes of %s are written again without their endianness tag: write() defaults to little-endian, so a big-endian value is re-tagged and its sub-range reads come back mirrored" % _data_owner(V))
+                    continue
             else:
                 continue
             n_sites += 1
